@@ -7,7 +7,7 @@ from deflate_common import gen_streams, gen_hex
 def record_stream_traces(wd, tier, seed, name="st", extra=None, cross=False):
     tr = os.path.join(wd, name + ".trace")
     q = tier == "quick"
-    a = ["stream-record", "--seed", seed, "--streams", 30 if q else 400, "--sweeps", 6 if q else 48,
+    a = ["stream-record", "--seed", seed, "--streams", 30 if q else 400, "--sweeps", 16 if q else 64,
          "--window", 16 if q else 64, "--maxlen", 8000 if q else 60000, "--maxtok", 6000 if q else 40000,
          "--samples", 1, "--samplemax", 30000 if q else 300000, "--out", tr]
     if extra:
